@@ -46,14 +46,6 @@ public:
    * @return The next token if there is one.
    */
   const std::string& nextToken();
-
-
-  /**
-   * @brief This function is not supported for nested tokenizers.
-   *
-   * @return An empty string.
-   */
-  std::string unparseRemainingTokens() const { return ""; }
 };
 } // end of namespace bpp;
 #endif // BPP_TEXT_NESTEDSTRINGTOKENIZER_H
